@@ -74,7 +74,7 @@ def scripted_metric(holder, name, ct, cv, torch):
     return f
 
 
-def run_real(ctx, table, calls, st, sv, valid_on=True, ops_rng=None, cscripts=None):
+def run_real(ctx, table, calls, st, sv, valid_on=True, ops_rng=None, cscripts=None, dag=None):
     """Returns (per-call list of epoch records, final global epoch, error string or None)."""
     CB, torch = ctx.CB, ctx.torch
     holder = {}
@@ -103,7 +103,7 @@ def run_real(ctx, table, calls, st, sv, valid_on=True, ops_rng=None, cscripts=No
         def __call__(self, s):
             cur.append(self.idx)
 
-    cbs = []
+    acts = []
     for j, e in enumerate(table):
         a = e['act']
         if a[0] == 'rec':
@@ -118,14 +118,25 @@ def run_real(ctx, table, calls, st, sv, valid_on=True, ops_rng=None, cscripts=No
             act = spy(CB.SetOptimizer, j, ctx.CountingSGD, optimizer_kwargs={'lr': 0.015625}, reset=a[1])
         else:
             raise ValueError(a)
-        cond = T.build(CB, e['tree'], ops_rng)
-        if j % 2 == 0:
-            cb = act.conditioned_on(cond)
-        else:
-            cb = cond.set_action_callback(act)
-        if cb is not cond or cond.action_callback is not act:
-            return None, None, 'conditioned_on/set_action_callback did not return the condition callback with the action attached'
-        cbs.append(cb)
+        acts.append(act)
+    cbs = []
+    if dag is not None:
+        # shared sub-expressions: the DAG is built with the real operators on shared objects, actions attached in its order
+        cbs = T.dag_build(CB, dag, acts)
+        for j, cb in enumerate(cbs):
+            if cb.action_callback is not acts[j]:
+                return None, None, 'an action attached to one condition callback ended up on another one'
+    else:
+        for j, e in enumerate(table):
+            act = acts[j]
+            cond = T.build(CB, e['tree'], ops_rng)
+            if j % 2 == 0:
+                cb = act.conditioned_on(cond)
+            else:
+                cb = cond.set_action_callback(act)
+            if cb is not cond or cond.action_callback is not act:
+                return None, None, 'conditioned_on/set_action_callback did not return the condition callback with the action attached'
+            cbs.append(cb)
 
     recs = []
 
